@@ -876,7 +876,14 @@ fn check_step(
         }
         (Comp::Panic(_), _) | (_, Comp::Panic(_)) => return,
         (w, c) => {
-            let sig = if is_mast_root_call { "history-dependence/outcome/call-mast-root" } else { "history-dependence/outcome" };
+            let locals_conflict = [w, c].iter().any(|o| matches!(o, Comp::Err(e) if e.contains("different number of locals")));
+            let sig = if is_mast_root_call {
+                "history-dependence/outcome/call-mast-root"
+            } else if locals_conflict {
+                "history-dependence/outcome/after-conflicting-num-locals-error"
+            } else {
+                "history-dependence/outcome"
+            };
             let txt = |o: &Comp| match o {
                 Comp::Ok(_) => "Ok".to_string(),
                 Comp::Err(e) => format!("Err({})", truncate(e, 160)),
@@ -1283,6 +1290,9 @@ fn gen_universe(rng: &mut Rng8, rep: &mut Report) -> Option<Universe> {
                 }
                 None => {
                     rep.count("harness", "kernel-root-unavailable");
+                    if let Built::Err(e) = fresh(&w, &[], &[]) {
+                        rep.count("kernel_err", &truncate(&e, 100));
+                    }
                     return None;
                 }
             }
@@ -1491,6 +1501,9 @@ fn kinds_sig(invs: &[Inv]) -> String {
 
 /// cache-state class of one invocation on the warm instance
 fn cache_class(inv: &Inv, loaded: &BTreeSet<usize>, cached_roots: &BTreeSet<W>) -> &'static str {
+    if inv.loc == "kernel" {
+        return "warm-same-module"; // the kernel is compiled when the instance is built
+    }
     match inv.tm {
         Some(m) if loaded.contains(&m) => "warm-same-module",
         _ => match inv.root {
@@ -1803,17 +1816,13 @@ fn directed(rep: &mut Report) {
         return;
     };
     let h = w_str(&root);
-    let world = World {
-        libs: vec![
-            la,
-            lib1("lb", "lb::m1", &format!("export.a\n    push.{h}\nend\n")),
-            lib1("lc", "lc::m2", "use.la::m0\nexport.b\n    procref.m0::foo\nend\n"),
-            lib1("ld", "ld::m3", &format!("use.la::m0\nexport.a2\n    push.{h}\nend\nexport.b2\n    procref.m0::foo\nend\n")),
-        ],
-        kernel: None,
-        stack: vec![],
-    };
-    let Ok(built) = world.build() else {
+    let lb = lib1("lb", "lb::m1", &format!("export.a\n    push.{h}\nend\n"));
+    let lc = lib1("lc", "lc::m2", "use.la::m0\nexport.b\n    procref.m0::foo\nend\n");
+    let ld = lib1("ld", "ld::m3", &format!("use.la::m0\nexport.a2\n    push.{h}\nend\nexport.b2\n    procref.m0::foo\nend\n"));
+    // world A: `a` and `b` in different modules; world B: both in one module (`a2` first)
+    let world = World { libs: vec![la.clone(), lb, lc], kernel: None, stack: vec![] };
+    let world_b = World { libs: vec![la.clone(), ld], kernel: None, stack: vec![] };
+    let (Ok(built), Ok(built_b)) = (world.build(), world_b.build()) else {
         rep.count("harness", "directed-build-failed");
         return;
     };
@@ -1827,6 +1836,7 @@ fn directed(rep: &mut Report) {
         let mut it = SeqItem { src: src.to_string(), expect_ok: true, invs, ..Default::default() };
         if procref {
             it.needed.insert(root, "procref".into());
+            it.parents.insert(root, [(None, "procref".to_string())].into_iter().collect());
         }
         if dk != 0 {
             it.dynk.insert(root, dk);
@@ -1839,25 +1849,52 @@ fn directed(rep: &mut Report) {
     let pa_dyn = mk("use.lb::m1\nbegin\n    exec.m1::a dynexec dropw\nend\n", false, 1, vec![inv("exec", 1, r_ab), inv("dynexec", 1, r_ab)], &[1], &[r_ab]);
     let pb_exec = mk("use.lc::m2\nbegin\n    exec.m2::b dynexec dropw\nend\n", true, 1, vec![inv("exec", 2, r_ab), inv("dynexec", 2, r_ab)], &[0, 2], &[r_ab, root]);
     let pb_call = mk("use.lc::m2\nbegin\n    exec.m2::b dyncall dropw\nend\n", true, 2, vec![inv("exec", 2, r_ab), inv("dyncall", 2, r_ab)], &[0, 2], &[r_ab, root]);
-    let pb_ref = mk("use.lc::m2\nbegin\n    exec.m2::b dropw\nend\n", true, 0, vec![inv("exec", 2, r_ab)], &[0, 2], &[r_ab, root]);
     let pd = mk("use.ld::m3\nbegin\n    exec.m3::b2 dynexec dropw\nend\n", true, 1, vec![inv("exec", 3, r_ab), inv("dynexec", 3, r_ab)], &[0, 3], &[r_ab, root]);
     let mut pcall = mk("use.la::m0\nbegin\n    call.m0::foo\nend\n", false, 0, vec![inv("call", 0, root)], &[0], &[root]);
     pcall.needed.insert(root, "call".into());
+    pcall.parents.insert(root, [(None, "call".to_string())].into_iter().collect());
+    let pexec = mk("use.la::m0\nbegin\n    exec.m0::foo\nend\n", false, 0, vec![inv("exec", 0, root)], &[0], &[root]);
+    // undocumented `call.<mast root>`: accepted only if the root happens to be cached
+    let mut proot = SeqItem { src: format!("begin\n    call.{}\nend\n", to_d(&root).to_hex()), expect_ok: false, ..Default::default() };
+    proot.needed.insert(root, "call".into());
     let roots: BTreeSet<W> = [root, r_ab].into_iter().collect();
     let none = BTreeSet::new();
     let seqs: Vec<Vec<&SeqItem>> = vec![
         vec![&pa, &pb_exec],
         vec![&pa, &pb_call],
-        vec![&pa, &pb_ref],
         vec![&pb_exec, &pa_dyn],
         vec![&pb_exec, &pb_exec],
-        vec![&pd],
         vec![&pa, &pcall, &pb_exec],
         vec![&pcall, &pb_call, &pa],
     ];
     for s in &seqs {
         rep.count("directed", "sequence");
         drive_sequence(&world, &built, s, &roots, &none, rep);
+    }
+    rep.count("directed", "sequence");
+    drive_sequence(&world_b, &built_b, &[&pd], &roots, &none, rep);
+    let world_c = World { libs: vec![la], kernel: None, stack: vec![] };
+    if let Ok(built_c) = world_c.build() {
+        for s in [vec![&pexec, &proot], vec![&proot, &pexec]] {
+            rep.count("directed", "sequence");
+            drive_sequence(&world_c, &built_c, &s, &roots, &none, rep);
+        }
+    }
+
+    // a module whose compilation fails while its procedures are being added to the cache
+    // (wrapper `w` has the MAST root of `q` but a different number of locals)
+    let world2 = World {
+        libs: vec![lib1("la", "la::m0", "export.q.1\n    push.5 loc_store.0\nend\nexport.w\n    exec.q\nend\n")],
+        kernel: None,
+        stack: vec![],
+    };
+    if let Ok(built2) = world2.build() {
+        let s1 = SeqItem { src: "use.la::m0\nbegin\n    exec.m0::w\nend\n".into(), expect_ok: false, ..Default::default() };
+        let s2 = SeqItem { src: "use.la::m0\nbegin\n    exec.m0::q\nend\n".into(), expect_ok: false, ..Default::default() };
+        for s in [vec![&s1, &s2], vec![&s2, &s1], vec![&s1, &s1]] {
+            rep.count("directed", "sequence");
+            drive_sequence(&world2, &built2, &s, &none, &none, rep);
+        }
     }
 }
 
@@ -2277,6 +2314,17 @@ fn invalid_corpus(pick: &mut dyn FnMut(&[usize]) -> Vec<usize>) -> Corpus {
     c
 }
 
+/// all five local-memory instructions share one address computation: one finding, not five
+fn sig_class(class: &str) -> &str {
+    if class.starts_with("locals-zero/") {
+        "locals-zero"
+    } else if class.starts_with("local-index/") {
+        "local-index"
+    } else {
+        class
+    }
+}
+
 fn eval_invalid(ic: &InvCase, rep: &mut Report) {
     rep.eval(&format!("invalid|{}|{}|{:?}", ic.class, ic.tpl, ic.expect));
     rep.count("invalid_class", &format!("{}:{}", ic.class, match ic.expect { Expect::Reject => "reject", Expect::NoPanic => "no-panic", Expect::Accept => "control" }));
@@ -2297,14 +2345,14 @@ fn eval_invalid(ic: &InvCase, rep: &mut Report) {
         (Expect::Reject, AsmOutcome::Ok(_)) => {
             rep.count("invalid_accepted_variants", &format!("{} :: {}", ic.class, truncate(&ic.variant.replace('\n', " "), 70)));
             rep.violation(
-            format!("invalid-accepted/{}", ic.class),
+            format!("invalid-accepted/{}", sig_class(&ic.class)),
             format!("`{}` ({} context) is documented as invalid but assembles", truncate(&ic.variant, 120), ic.tpl),
             wit(),
         )}
         (Expect::Reject, AsmOutcome::Panic(p)) => {
             rep.count("invalid_panic_variants", &format!("{} :: {}", ic.class, truncate(&ic.variant.replace('\n', " "), 70)));
             rep.violation(
-            format!("invalid-panic/{}/{}", ic.class, p.site()),
+            format!("invalid-panic/{}/{}", sig_class(&ic.class), p.site()),
             format!("`{}` ({} context) must be rejected with an error but the assembler panics: {} at {}", truncate(&ic.variant, 120), ic.tpl, p.message, p.location),
             wit(),
         )}
